@@ -43,6 +43,8 @@ type LiveCase struct {
 	Chain []string `json:"chain"`
 	Subs  int      `json:"subs"`
 	Ops   []LiveOp `json:"ops"`
+	// FailFirst: before every Sub call an operation fails on the parent FS object
+	FailFirst bool `json:"fail_first,omitempty"`
 }
 
 func lsnap(root string) map[string]string {
@@ -122,6 +124,10 @@ func checkLive(c LiveCase) (string, string) {
 		lo, hi := i*per, (i+1)*per
 		if i == n-1 {
 			hi = len(els)
+		}
+		if c.FailFirst {
+			// an operation that fails in the OS on the parent before the view is taken: a view inherits nothing from that
+			_, _ = hackpadfs.Stat(fsys, "no-such-entry-"+fmt.Sprint(i))
 		}
 		next, err := hackpadfs.Sub(fsys, strings.Join(els[lo:hi], "/"))
 		if err != nil {
@@ -264,7 +270,7 @@ func (w rwWriter) ReadFrom(r io.Reader) (int64, error) {
 }
 
 func genLive(rt *rapid.T) LiveCase {
-	c := LiveCase{Subs: rapid.IntRange(1, 3).Draw(rt, "subs")}
+	c := LiveCase{Subs: rapid.IntRange(1, 3).Draw(rt, "subs"), FailFirst: rapid.Bool().Draw(rt, "failfirst")}
 	odd := append([]string{"s"}, gen.Exotic...)
 	for i, n := 0, rapid.IntRange(0, 2).Draw(rt, "chainlen"); i < n; i++ {
 		c.Chain = append(c.Chain, rapid.SampledFrom(odd).Draw(rt, "chain"))
